@@ -275,10 +275,12 @@ static void case_find(int with_copy)
 	int destlen, r, rawlen = 0, rejected = 0;
 
 	memset(&m, 0, sizeof(m));
+	/* instrument paths: never the empty string (dirs[ndirs-1]); what an empty
+	 * instrument path means is left to the load oracle */
 	if (vrng_chance(45))
-		ctx = &dirs[vrng_below(ndirs)];
+		ctx = &dirs[vrng_below(ndirs - 1)];
 	if (vrng_chance(25))
-		env = &dirs[vrng_below(ndirs)];
+		env = &dirs[vrng_below(ndirs - 1)];
 	if (vrng_chance(80))
 		md = &dirs[vrng_below(ndirs)];
 	ins = ctx ? ctx : env;
